@@ -55,48 +55,12 @@ partial def readV : Sexp → Option VSpec
   | .list [.atom "dtext", s] => (readStr s).map .dynText
   | .list (.atom "dview" :: cs) => do pure (.dynView (VList.ofList (← cs.mapM readV)))
   | .list (.atom "frag" :: cs) => do pure (.fragment (VList.ofList (← cs.mapM readV)))
+  -- `(batch2 ab|ba (X a…) (Y b…))`: two dynamic regions whose flags are set by a batch made while the view is built
+  -- (`ab`: the flag of the first region is written first); the key order is the model's (`Ssr.build`, `VSpec.batch2`)
+  | .list [.atom "batch2", .atom r, .list (.atom "X" :: as), .list (.atom "Y" :: bs)] => do
+    let ab ← (if r == "ab" then some true else if r == "ba" then some false else none)
+    pure (.batch2 ab (VList.ofList (← as.mapM readV)) (VList.ofList (← bs.mapM readV)))
   | _ => none
-end
-
-/- builder for views that contain `(batch2 ab|ba (X a…) (Y b…))`: two dynamic regions that are empty until a batch (made while
-the view is built) sets their flags (`ab`: the flag of the first region is written first); they re-run when the batch ends —
-the dependents of the signal written LAST first (the order in which `Root::end_batch` walks the queue; it is the same on a
-fresh and on a recycled root) — so the elements of that region take their hydration keys first, whatever the order of the
-regions in the document. Everything else as `Ssr.build` -/
-mutual
-partial def buildX : Sexp → Nat → Option (SsrList × Nat)
-  | .list [.atom "batch2", .atom r, .list (.atom "X" :: as), .list (.atom "Y" :: bs)], k => do
-    let (ca, cb, k2) ← (if r == "ba" then do
-        let (ca, k1) ← buildXs as k
-        let (cb, k2) ← buildXs bs k1
-        pure (ca, cb, k2)
-      else do
-        let (cb, k1) ← buildXs bs k
-        let (ca, k2) ← buildXs as k1
-        pure (ca, cb, k2))
-    pure (.cons .marker (.cons (.dynamic ca) (.cons .marker (.cons .marker (.cons (.dynamic cb) (.cons .marker .nil))))), k2)
-  | .list [.atom "el", tag, .list (.atom "A" :: as), .list (.atom "B" :: bs), .list (.atom "C" :: cs)], k => do
-    let tag ← readStr tag
-    let as ← as.mapM fun
-      | .list [n, .atom "N"] => do pure ((← readStr n), none)
-      | .list [n, .list [.atom "S", v]] => do pure ((← readStr n), some (← readStr v))
-      | _ => none
-    let bs ← bs.mapM fun | .list [n, v] => do pure ((← readStr n), (← readBool v)) | _ => none
-    let (c, k') ← buildXs cs (k + 1)
-    pure (.cons (.element tag (keepSome as) bs c none (some (0, k))) .nil, k')
-  | .list (.atom "dview" :: cs), k => do
-    let (c, k') ← buildXs cs k
-    pure (.cons .marker (.cons (.dynamic c) (.cons .marker .nil)), k')
-  | .list (.atom "frag" :: cs), k => buildXs cs k
-  | other, k => do
-    let v ← readV other
-    pure (build 0 v k)
-partial def buildXs : List Sexp → Nat → Option (SsrList × Nat)
-  | [], k => some (.nil, k)
-  | v :: vs, k => do
-    let (a, k1) ← buildX v k
-    let (b, k2) ← buildXs vs k1
-    pure (appendSsr a b, k2)
 end
 
 def showRes : Except Panic Str → String
@@ -121,11 +85,7 @@ def handle (line : String) : String :=
   | some (.list [.atom "view", .list (.atom "L" :: vs)]) =>
     match vs.mapM readV with
     | some vs => showRes (renderToString (VList.ofList vs))
-    | none =>
-      -- views with `batch2` go through the driver's own builder
-      match buildXs vs 0 with
-      | some (l, _) => showRes (renderList l)
-      | none => "bad-op"
+    | none => "bad-op"
   | some (.list [.atom "parse", s]) =>
     match readStr s with
     | some s => match parse s with
